@@ -102,6 +102,20 @@ Theorem C04_chain_then_resume_identical :
 Proof. exact TF.Proofs.ResumeChain.chain_then_resume_identical. Qed.
 Print Assumptions C04_chain_then_resume_identical.
 
+(* non-vacuity of the premises: a history with two marked chunks, a complete
+   flush, a third chunk written but not yet recorded, a torn flush and the kill;
+   the disk it stands for; the resumed run re-sends the verification tail and the
+   missing chunk and ends with the source *)
+Example C04_chain_example :
+  exists s' x br o,
+    TF.Model.Crash.run (map TF.Model.Crash.fresh [3%nat]) TF.Proofs.ResumeChain.ex_hist = Some s' /\ nth_error s' 0 = Some x /\
+    TF.Model.Crash.disk x = Some [true; true; false] /\
+    recv_begin crc32c TF.Proofs.ResumeChain.ex_rq TF.Proofs.ResumeChain.ex_disk = Ret br /\
+    resume_outcome crc32c TF.Proofs.ResumeChain.ex_rq TF.Proofs.ResumeChain.ex_disk TF.Proofs.ResumeChain.ex_src 1 false = Ret o /\
+    TF.Proofs.ResumeChain.refines 2 x (br_file br) TF.Proofs.ResumeChain.ex_src (sc_bitmap (br_sc br)) (br_total br) /\
+    o_sent o = [1; 2] /\ o_file o = TF.Proofs.ResumeChain.ex_src.
+Proof. exact TF.Proofs.ResumeChain.chain_example. Qed.
+
 (* non-vacuity: 5 bytes, chunk size 2, chunks 0 and 1 recorded and intact, chunk
    2 missing on disk (zeros after Truncate): the resumed run sends chunks 1 (the
    verification tail) and 2 and ends with the source *)
